@@ -15,7 +15,7 @@ CHECKS = {
          "TXTPP_FILE accepted as absolute or base-/cwd-relative designation of the source (README vs code).", "DESIGN.md §5 C17"),
  "C18": ("exploration", "in-process fuzzing with panic hook (all threads), logical deadlock predicate from the scheduler hooks, process-death witness file; CLI option-value runs with exit-status monitor; watchdog expiry = inconclusive",
          "Grammar-aware hostile and byte-mutated sources, include targets and leftovers x 4 modes x 0..16 threads; any panic of any thread, logical deadlock, abort or exit status outside {0,1,2} is a violation.",
-         "Commands neutralised (/bin/echo as shell); temp targets kept inside the scratch tree.", "DESIGN.md §5 C18"),
+         "Commands neutralised (/bin/echo as shell); temp targets kept inside the scratch tree. Hang verdicts: logical deadlock and rescan predicates; shutdown-phase hangs as bounded progress (10 s, DESIGN §11); any other watchdog expiry is inconclusive.", "DESIGN.md §5 C18"),
  "C06": ("exploration", "snapshot monitor (bytes, inode, sentinel mtime) around in-process verify runs on built projects: every single-point tamper class of every output must be rejected and left untouched; option mismatch / source edits judged against the real build run right after; strace write-set monitor on a CLI sample",
          "verify is executed on the real code for each tampering of each output (including dependencies and outputs of exactly 0 / 8192 / 16384 bytes) and its verdict compared with what an actual build does to the same tree; read-only-ness observed on inode/mtime and at the syscall level.",
          "Trusted: determinism of commands (the build right after defines 'up to date'); strace parser (harness/src/sys.rs).", "DESIGN.md §5 C06"),
@@ -48,7 +48,7 @@ CHECKS = {
          "Trusted: controller serialises at gate granularity (begin gate, end gate, receive); reference model; stale-generation planting makes stale/partial reads visible in bytes.", "DESIGN.md §4.5, §5 C02"),
  "C03": ("exploration", "controlled-schedule runtime monitoring: logical deadlock predicate + worker-panic events + at-most-once completion over the hook event trace + marker-file counters + output bytes, over all digraphs <=3 files x input aliases x threads x gate schedules",
          "Termination is decided logically (nothing in flight, everything received, done != total), never by wall clock; exactly-once by the event trace and by command-level markers.",
-         "Trusted: hook placement (task spawn/begin/ready/end, poll, receive); bounded to the explored graph sizes.", "DESIGN.md §4.5, §5 C03"),
+         "Trusted: hook placement (task spawn/begin/ready/end, poll, receive); bounded to the explored graph sizes. Hangs outside the coordinator loop (in Drop, after the last poll) are stated as bounded progress: 10 s without any hook event in a state where no thread can make progress (DESIGN §11); endless rescanning = one directory queued more than 64 times.", "DESIGN.md §4.5, §5 C03"),
  "C05": ("exploration", "controlled-schedule runtime monitoring: verdict vs cycle reachability computed on the generated digraph, bystander bytes vs reference model, deadlock predicate; all digraphs with self loops <=3 files x requested sets x threads x gate schedules",
          "For every explored digraph and schedule: a requested file reaching a cycle must fail the run (and the run must return), acyclic projects must not fail, and every required file that cannot reach a cycle must be built exactly as the model says.",
          "Trusted: reachability computation in gen.rs, reference model; 4 files sampled.", "DESIGN.md §5 C05"),
@@ -96,7 +96,7 @@ def main():
                      "kind_free_text": "Rust harness linking txtpp (feature verif): schedule controller + event-trace monitors, reference-model differential, snapshot/syscall monitors, fault and crash injection"}],
         "checks": checks,
         "not_applicable": na,
-        "notes": "Runtime monitoring family. Every check rebuilds harness and hooked CLI from /repo's working tree (VERIF_REPO overrides). Exit 0 held / 1 VIOLATION / 2 harness error or inconclusive. Known findings: /verif/known_findings.json.",
+        "notes": "Runtime monitoring family. Five defects found by the checks were repaired by fix: commits (known_findings.json, DESIGN §8); no open findings. Supplementary ThreadSanitizer stage: ./check tsan (also at the end of C02 thorough). Every check rebuilds harness and hooked CLI from /repo's working tree (VERIF_REPO overrides). Exit 0 held / 1 VIOLATION / 2 harness error or inconclusive. Known findings: /verif/known_findings.json.",
     }
     json.dump(m, open(os.path.join(HERE, "MANIFEST.json"), "w"), indent=1)
     print("MANIFEST.json:", len(checks), "checks,", len(na), "not claimed")
